@@ -23,6 +23,7 @@ var (
 	flagNoEvid   = flag.Bool("no-evidence", false, "do not write evidence (used for scratch copies)")
 	flagList     = flag.Bool("list", false, "list properties and rules")
 	flagReplay   = flag.String("replay", "", "re-run the rule of a replay file and tell whether the construct is still reported")
+	flagExport   = flag.Bool("export-props", false, "print the property table as JSON (used by gen_manifest.py)")
 	flagMutants  = flag.Bool("mutants", false, "run the mutant self-tests for -property (or all) and exit")
 )
 
@@ -47,6 +48,15 @@ func run() (code int) {
 			panic(e)
 		}
 	}()
+	if *flagExport {
+		out := map[string]any{}
+		for id, pr := range properties {
+			out[id] = map[string]any{"rules": pr.Rules, "decided": pr.Decided, "not_decided": pr.NotDecided}
+		}
+		b, _ := jsonMarshal(out)
+		fmt.Println(string(b))
+		return 0
+	}
 	if *flagList {
 		for _, id := range sortedKeys(properties) {
 			fmt.Printf("%s: %s\n", id, strings.Join(properties[id].Rules, " "))
